@@ -416,6 +416,23 @@ def g3_wrapped(F, R):
                     'the consistent-read closure captures no value read from configuration space outside it',
                     'the closure passed to read_consistent uses a value (%s) that was read from configuration space outside the closure, '
                     'so the assembled value can be torn by a configuration change between the reads' % (fmt(bad)[:120] if bad else ''))
+        # one value is one snapshot: no arithmetic combination (or / shift / add ...) of the results of two different consistent
+        # reads - each is generation-checked on its own, nothing ties the generation of one to that of the other
+        rcids = set(n.id for n in deep.calls(lambda d: d.get('trait') == TRANSPORT and d.get('method') == 'read_consistent'))
+        if len(rcids) >= 2:
+            def snaps(t):
+                return set(x[1] for x in deep_subterms(DS, t) if x[0] == 'call' and x[1] in rcids)
+            badc = None
+            for nd in deep.nodes:
+                if nd.ctx != 0 or nd.kind != 'assign' or nd.d['rv']['rv'] != 'bin' or nd.d['rv']['op'] in ('Eq', 'Ne', 'Lt', 'Le', 'Gt', 'Ge'):
+                    continue
+                a, b_ = snaps(DS.operand(nd.id, nd.d['rv']['a'])), snaps(DS.operand(nd.id, nd.d['rv']['b']))
+                if a and b_ and len(a | b_) >= 2:
+                    badc = nd
+            R.check(badc is None, 'G3', '%s:one-value-one-snapshot' % b['id'], site(deep, badc) if badc else fn_site(F, b['id']),
+                    'no value is assembled from the results of two separate consistent reads',
+                    'a value is assembled (%s) from the results of two separate read_consistent calls: a configuration change between the two '
+                    'calls yields a combination the device never exposed' % (badc.d['rv']['op'] if badc else ''))
     # the five named values
     for adt, what in WRAPPED.items():
         mod = adt.rsplit('::', 1)[0]
